@@ -396,6 +396,15 @@ func c07CellsFor(s *skeleton, withFixed bool) []c07Cell {
 		{"switch-case-var-reuse", "n := 1\nswitch n {\ncase 1:\n\tq := 1\n\tprint(q)\ncase 2:\n\tq := 2\n\tprint(q)\n}\n", true},
 		{"if-var-in-else", "c := true\nif c {\n\tq := 1\n} else {\n\tprint(q)\n}\n", false},
 		{"else-if-var-in-else", "c := true\nif c {\n} else if c {\n\tq := 1\n} else {\n\tprint(q)\n}\n", false},
+		// := whose names are all visible already, with one multi-value call on the right
+		{"no-new-names-multi-call", "func pair() (int, int) {\n\treturn 1, 2\n}\nx, y := 1, 2\nx, y := pair()\nprint(x, y)\n", false},
+		{"no-new-names-multi-call-in-function", "func pair() (int, int) {\n\treturn 1, 2\n}\nfunc run(x int) {\n\ty := 2\n\tx, y := pair()\n\tprint(x, y)\n}\nrun(1)\n", false},
+		{"no-new-names-multi-call-in-block", "func pair() (int, int) {\n\treturn 1, 2\n}\nx, y := 1, 2\nif x == 1 {\n\tx, y := pair()\n\tprint(x, y)\n}\n", false},
+		{"no-new-names-multi-call-three", "func three() (int, string, bool) {\n\treturn 1, \"s\", true\n}\na, b, c := 0, \"\", false\na, b, c := three()\nprint(a, b, c)\n", false},
+		{"no-new-names-program-call", "o, e, c := @echo(\"a\")\no, e, c := @echo(\"b\")\nprint(o, e, c)\n", false},
+		{"no-new-names-var-multi-call", "func pair() (int, int) {\n\treturn 1, 2\n}\nx, y := 1, 2\nvar x, y = pair()\nprint(x, y)\n", false},
+		{"one-new-name-multi-call", "func pair() (int, int) {\n\treturn 1, 2\n}\nx := 1\nx, y := pair()\nprint(x, y)\n", true},
+		{"assignment-multi-call", "func pair() (int, int) {\n\treturn 1, 2\n}\nx, y := 1, 2\nx, y = pair()\nprint(x, y)\n", true},
 	}
 	if !withFixed {
 		return cells
